@@ -599,6 +599,16 @@ def rule_r11(prog, res):
     res.floor('R11', 'functions writing a prefixed xsi:type', n, 2)
 
 
+def rule_r12(prog, res):
+    from . import c02
+    from ..report import Result
+    txt = ('the receiver reads the members of the class it instantiates '
+           '(C02-R7); every protocol honours the polymorphic option '
+           '(C02-R11)')
+    res.share('R12', txt, 'C02', c02.rule_r7, prog, Result)
+    res.share('R12', txt, 'C02', c02.rule_r11, prog, Result)
+
+
 def run(prog, res, tier):
     res.run_rule(rule_r1, prog, res)
     res.run_rule(rule_r2, prog, res)
@@ -611,6 +621,7 @@ def run(prog, res, tier):
     res.run_rule(rule_r9, prog, res)
     res.run_rule(rule_r10, prog, res)
     res.run_rule(rule_r11, prog, res)
+    res.run_rule(rule_r12, prog, res)
 
 
 _C = 'spyne/model/complex.py'
